@@ -16,7 +16,7 @@ SENext == \/ Pick(0, 0..4) \/ Pick(1, Containers) \/ Pick(2, -1..5) \/ Pick(3, -
           \/ Finish(4, StartEnd(scn[1], scn[3], scn[4]))
 
 (* ---- high_low: 2 channels with range [0,7]; scn = <<events, container, chform, hi, lo>> *)
-HLVals == {0, 1, 5, 7}
+HLVals == {0, 1, 5, 7, NANV}          \* NANV only materialises in floating-point containers (the driver skips it elsewhere)
 HLEvents == UNION {[1..n -> [1..2 -> HLVals]] : n \in 0..MaxN}
 ChForm(t, xs, named) == [t |-> t, xs |-> xs, named |-> named]
 (* named[i] = 2: the position is written as a NEGATIVE index (counted from the last channel) *)
@@ -62,7 +62,7 @@ StartEndCount == (Done /\ Gate = "start_end" /\ out.k = "ok") =>
        ns == IF scn[3] < 0 THEN 0 ELSE scn[3]  ne == IF scn[4] < 0 THEN 0 ELSE scn[4]
    IN kept = (ns + 1)..(scn[1] - ne)
 HighLowMonotone == (Done /\ Gate = "high_low" /\ scn[4] = 5 /\ scn[5] = 1) =>
-   \A i \in 1..Len(out.mask) : out.mask[i] => \A j \in 1..Len(scn[3].xs) : scn[1][i][scn[3].xs[j]] \in 2..4
+   \A i \in 1..Len(out.mask) : out.mask[i] => \A j \in 1..Len(scn[3].xs) : scn[1][i][scn[3].xs[j]] \in 2..6
 UndefNeverInside == (Done /\ Gate = "ellipse_log" /\ out.k = "ok") =>
    \A i \in 1..Len(out.mask) : out.mask[i] => \A j \in 1..2 : scn[1][i][scn[3].xs[j]] # UNDEF
 =============================================================================
